@@ -12,6 +12,7 @@ ASSUMPTIONS = [
     'explorer forks over all combinations',
     'oracle: a plain dictionary model that reads the database content only; item catalogue with concrete values (one adsorbate '
     'with a list-valued property, one material, one point isotherm with an extra column, a second isotherm)',
+    'a symbolic bit "earlier in this session the same items were uploaded to another file" precedes every step (session memos must be invisible)',
     'SQLite itself and type affinity of stored values are trusted',
 ]
 LEVEL = 'model_checking'
@@ -64,8 +65,27 @@ def strip(c):
     return c
 
 
-def h_item(h, fam, op, overwrite):
+def warm_up(h, cat, fam):
+    """"earlier in the session": (symbolic bit) the same items were uploaded, with auto-insert, to ANOTHER file and - for the
+    families with an upload that can be undone - uploaded and deleted again.  Nothing of that may change what the step on the
+    target file does (the dictionary model reads the target file only)."""
     import pygaps.parsing.sqlite as ps
+    if not h.flag('earlier_uploads_to_another_file_in_this_session'):
+        return
+    other = S.new_db()
+    ads, mat = cat[0], cat[1]
+    with S.registries(mats=[mat], adss=[ads]):
+        if fam in ('ads', 'iso'):
+            ps.adsorbate_to_db(ads, db_path=other, autoinsert_properties=True, verbose=False)
+        if fam in ('mat', 'iso'):
+            ps.material_to_db(mat, db_path=other, autoinsert_properties=True, verbose=False)
+        if fam == 'iso':
+            ps.isotherm_to_db(cat[2], db_path=other, verbose=False)
+            ps.isotherms_from_db(db_path=other, verbose=False)
+
+
+def h_item(h, fam, op, overwrite):
+    ps = S.fresh_sqlite_module()
     from pygaps.utilities.exceptions import ParsingError
     try:
         cat = catalogue()
@@ -74,6 +94,7 @@ def h_item(h, fam, op, overwrite):
         its = {k: v for k, v in items(cat[0], cat[1]).items() if k.startswith(fam)}
         present = S.prestate(path, h, its)
         in_registry = h.flag('in_registry')
+        warm_up(h, cat, fam)
         referenced = False
         if op == 'delete' and present[fam] and h.flag('referenced_by_an_isotherm'):
             other = cat[1] if fam == 'ads' else cat[0]
@@ -115,7 +136,7 @@ def h_item(h, fam, op, overwrite):
 
 def h_isotherm(h, op):
     import pygaps
-    import pygaps.parsing.sqlite as ps
+    ps = S.fresh_sqlite_module()
     from pygaps.utilities.exceptions import ParsingError
     try:
         ads, mat, iso = catalogue()
@@ -125,6 +146,7 @@ def h_isotherm(h, op):
         path = S.new_db()
         present = S.prestate(path, h, {k: v for k, v in items(ads, mat).items() if k in ('ads', 'mat')})
         reg_m, reg_a = h.flag('material_in_registry'), h.flag('adsorbate_in_registry')
+        warm_up(h, (ads, mat, iso), 'iso')
         iso_present = False
         if present['ads'] and present['mat'] and h.flag('present_iso'):
             with S.registries(mats=[mat], adss=[ads]):
